@@ -95,6 +95,15 @@ type TDiffMut<T> = DifferenceMut<'static, K, T, u32>;
 type TCovDiffMut<T> = CoveringDifferenceMut<'static, K, T, u32>;
 /// the *right* operand of difference_mut is only read
 type TDiffMutR<T> = DifferenceMut<'static, K, u32, T>;
+type TCovDiffMutR<T> = CoveringDifferenceMut<'static, K, u32, T>;
+// two-sided mutable operations with different value types on the two sides
+type TUnionMutL<T> = UnionMut<'static, K, T, u32>;
+type TUnionMutR<T> = UnionMut<'static, K, u32, T>;
+type TInterMutL<T> = IntersectionMut<'static, K, T, u32>;
+type TInterMutR<T> = IntersectionMut<'static, K, u32, T>;
+type TUnionR<T> = Union<'static, K, u32, T>;
+type TInterR<T> = Intersection<'static, K, u32, T>;
+type TDiffR<T> = Difference<'static, K, u32, T>;
 
 pub fn matrix() -> Vec<Row> {
     let mut out = vec![];
@@ -108,6 +117,14 @@ pub fn matrix() -> Vec<Row> {
     rows!(out, Kind::Shared, "trieview::Intersection<'_,P,T,T>", TInter);
     rows!(out, Kind::Shared, "trieview::Difference<'_,P,T,T>", TDiff);
     rows!(out, Kind::Shared, "trieview::DifferenceMut<'_,P,u32,T> (right operand)", TDiffMutR);
+    rows!(out, Kind::Shared, "trieview::CoveringDifferenceMut<'_,P,u32,T> (right operand)", TCovDiffMutR);
+    rows!(out, Kind::Shared, "trieview::Union<'_,P,u32,T>", TUnionR);
+    rows!(out, Kind::Shared, "trieview::Intersection<'_,P,u32,T>", TInterR);
+    rows!(out, Kind::Shared, "trieview::Difference<'_,P,u32,T>", TDiffR);
+    rows!(out, Kind::Mutable, "trieview::UnionMut<'_,P,T,u32>", TUnionMutL);
+    rows!(out, Kind::Mutable, "trieview::UnionMut<'_,P,u32,T>", TUnionMutR);
+    rows!(out, Kind::Mutable, "trieview::IntersectionMut<'_,P,T,u32>", TInterMutL);
+    rows!(out, Kind::Mutable, "trieview::IntersectionMut<'_,P,u32,T>", TInterMutR);
     rows!(out, Kind::Mutable, "TrieViewMut<'_,P,T>", TViewMut);
     rows!(out, Kind::Mutable, "map::IterMut<'_,P,T>", TIterMut);
     rows!(out, Kind::Mutable, "map::ValuesMut<'_,P,T>", TValuesMut);
@@ -131,7 +148,8 @@ pub fn cmd_aux(opts: &std::collections::BTreeMap<String, String>) -> i32 {
     let mut known_hit = vec![];
     for r in &m {
         for tr in &r.unsound {
-            let short = r.ty.split('<').next().unwrap_or(r.ty);
+            let short = r.ty.replace(' ', "");
+            let short = short.as_str();
             let sig = format!("C14:aux:unsound-auto-trait:{short}:{tr}:{}", r.value);
             if let Some(f) = crate::known::matches(&known, "C14", &sig) {
                 known_hit.push((sig, f.text.clone()));
